@@ -88,6 +88,9 @@ func valueTrueImplies(v ssa.Value, at ssa.Instruction, pred Pred, seen map[ssa.V
 	return g.Guarded
 }
 
+// EdgeLicensed reports whether the CFG edge from->to is taken only when pred holds.
+func EdgeLicensed(from, to *ssa.BasicBlock, pred Pred) bool { return edgeLicensed(from, to, pred) }
+
 func edgeLicensed(from, to *ssa.BasicBlock, pred Pred) bool {
 	lic := licensedSucc(from, pred)
 	for _, l := range lic {
